@@ -75,6 +75,9 @@ def gen_program(rng, profile, index=None):
                         op['fail_kind'] = 'cancelled'
         elif kind == 'wait':
             op['cancel'] = rng.random() < 0.6
+        elif kind == 'call_wait':
+            op['elems'] = elems(1)
+            op['cancel'] = rng.random() < 0.6
         return op
 
     if base == 'c08':
@@ -91,6 +94,7 @@ def gen_program(rng, profile, index=None):
         ks = list(kinds)
         if base == 'c07':
             ks.append(('wait', 5))
+            ks.append(('call_wait', 2))
         elif base == 'c03':
             ks.append(('wait', 1.5))
         elif base == 'c08' and rng.random() < 0.2:
@@ -104,6 +108,13 @@ def gen_program(rng, profile, index=None):
                 continue
             nsub += 1
         ops.append(op)
+        if base == 'c07' and rng.random() < 0.25:
+            # a second waiter (or submit-and-wait task) at the very same instant: concurrent waiters
+            op2 = gen_op([('wait', 1), ('call_wait', 1)])
+            op2['at'] = t
+            if op2['op'] == 'wait' or nsub < 8:
+                nsub += op2['op'] != 'wait'
+                ops.append(op2)
     foreign = []
     if base in ('c03', 'c07') and not profile.endswith('-solo') and rng.random() < 0.6:
         for _ in range(_w(rng, [(1, 6), (2, 4)])):
@@ -114,6 +125,8 @@ def gen_program(rng, profile, index=None):
                 ks = [('call', 5), ('map_list', 1), ('map_iter', 1), ('amap', 1), ('await', 1)]
                 op = gen_op(ks)
                 op['at'] = ft
+                if rng.random() < 0.3:
+                    op['in_loop'] = True
                 if nsub >= 8:
                     break
                 nsub += 1
@@ -132,6 +145,8 @@ def gen_program(rng, profile, index=None):
         func.append({'dur': _w(rng, [(0.0, 5), (T / 2, 3), (T + Q, 2), (2 * T, 1)]), 'fail': fail})
     prog = {'world': 'buffer', 'profile': profile, 'T': T, 'ops': ops, 'foreign': foreign, 'func': func,
             'form': _w(rng, [('direct', 5), ('deco', 3), ('bare', 2)]) if T == 1.0 else _w(rng, [('direct', 6), ('deco', 4)])}
+    if base == 'c03' and rng.random() < 0.3:
+        prog['final'] = 'sleep'         # no closing wait(): "eventually" must not depend on somebody waking the loop
     if base == 'c07' and profile.endswith('-shutdown'):
         prog['foreign'] = []
         horizon = (ops[-1]['at'] if ops else 0.0) + 3 * T
@@ -345,6 +360,11 @@ class BufferWorld:
             if S.CUR is sch:
                 self.viol('C07', 'buffer.wait_raised', 'wait() raised', f'wait {W.wid} ({thread}) raised {W.error}')
 
+    async def call_then_wait(self, op):
+        """`buffer(x); await buffer.wait()` in one task step."""
+        self.submit('owner', dict(op, op='call'))
+        await self.do_wait('owner', op)
+
     def check_barrier(self, W):
         delivered = set()
         for I in self.invs:
@@ -386,6 +406,8 @@ class BufferWorld:
                 await asyncio.sleep(op['at'] - loop.time())
             if op['op'] == 'wait':
                 wtasks.append(loop.create_task(self.do_wait('owner', op)))
+            elif op['op'] == 'call_wait':
+                wtasks.append(loop.create_task(self.call_then_wait(op)))
             else:
                 self.submit('owner', op)
         if sd is not None:
@@ -394,6 +416,19 @@ class BufferWorld:
             self.phase = 'shutdown'
             sch.log('shutdown-begin')
             return
+        if p.get('final') == 'sleep':
+            # No closing wait() and no polling: the owner sleeps ONCE, so nothing but the buffer's own thread-safe hand-off
+            # wakes the loop while foreign threads submit.  Long enough for every submission instant, producer delay,
+            # failing invocation's retry and the quiet period.
+            allops = p['ops'] + [x for fo in p['foreign'] for x in fo]
+            horizon = max([o['at'] for o in allops] + [0.0]) + 4 * self.T + sum(f['dur'] + self.T for f in p['func']) + sum(
+                sum(o.get('delays', ())) + o.get('delay', 0.0) for o in allops)
+            self.phase = 'final-sleep'
+            if horizon > loop.time():
+                await asyncio.sleep(horizon - loop.time())
+            if self.foreign_done >= len(p['foreign']) and all(t.done() for t in wtasks):
+                self.phase = 'done'
+                return
         # normal end: wait for foreign threads, then the final barrier
         while self.foreign_done < len(p['foreign']):
             await asyncio.sleep(Q)
@@ -452,6 +487,17 @@ class BufferWorld:
                         loop = SimLoop()
                         asyncio.set_event_loop(loop)
                     loop.run_until_complete(self.do_wait(fi, op))
+                elif op.get('in_loop'):
+                    # the submitting thread runs an event loop of its own and submits from a coroutine on it
+                    if loop is None:
+                        loop = SimLoop()
+                        asyncio.set_event_loop(loop)
+                    self.count('submit.from_foreign_running_loop')
+
+                    async def sub():
+                        self.submit(fi, op)
+                        await asyncio.sleep(0)
+                    loop.run_until_complete(sub())
                 else:
                     self.submit(fi, op)
             if loop is not None:
